@@ -2,9 +2,266 @@
 
 package gohlslib
 
-import "github.com/bluenviron/gohlslib/v2/internal/zzverif/vh"
+// C06, sequential half: at every node of the Low-Latency write trees the harness probes a grid of (msn, part)
+// values, malformed directives and delta updates. Every execution runs inside a testing/synctest bubble so that
+// "this request blocks" is observed deterministically (synctest.Wait returns once the handler is durably blocked
+// in cond.Wait) instead of by a wall-clock timeout.
 
-// sequential half of C06 (filled in with engine E1)
-func c06SeqList(tier string) []vh.Scenario { return nil }
-func c06SeqRun(c *vh.Ctx)                  {}
-func c06IsSeqReplay(c *vh.Ctx) bool        { return false }
+import (
+	"fmt"
+	"strings"
+	"testing"
+	"testing/synctest"
+
+	"github.com/bluenviron/gohlslib/v2/internal/zzverif/m3u"
+	"github.com/bluenviron/gohlslib/v2/internal/zzverif/vh"
+)
+
+func c06SeqScens(tier string) []e1Scen {
+	var out []e1Scen
+	depth := 4
+	if tier == "thorough" {
+		depth = 6
+	}
+	cfgs := []muxCfg{mcfg("ll", false, 7, "h264"), mcfg("ll", true, 7, "h264", "aac44")}
+	for _, cfg := range cfgs {
+		var alpha []sym
+		lead := cfg.leading()
+		for _, d := range []string{"q", "S"} {
+			for _, k := range []string{"R", "n"} {
+				alpha = append(alpha, sym{T: lead, D: d, K: k})
+			}
+		}
+		alpha = append(alpha, sym{T: lead, D: "f", K: "n"})
+		if len(cfg.Tracks) > 1 {
+			alpha = append(alpha, sym{T: 1, D: "c", N: 10})
+		}
+		sc := e1Scen{Prop: "C06", Cfg: cfg, Alpha: alpha, Depth: depth + 1, Mode: "tree", Name: "C06seq-tree"}
+		out = append(out, e1Shard(sc, 4)...)
+		sc2 := sc
+		sc2.Pre, sc2.Depth, sc2.Name = 8, depth, "C06seq-tree-after-preamble"
+		out = append(out, e1Shard(sc2, 4)...)
+	}
+	return out
+}
+
+func c06SeqList(tier string) []vh.Scenario { return e1List(c06SeqScens(tier)) }
+
+func c06IsSeqReplay(c *vh.Ctx) bool {
+	return c.Replay != nil && strings.Contains(string(c.Replay), `"C06seq`)
+}
+
+func c06SeqRun(c *vh.Ctx) {
+	e1Run(c, c06SeqScens(c.Tier))
+}
+
+func init() {
+	e1Hooks["C06"] = func(r *e1run) { r.stepHook = c06Probe }
+	e1Bubble["C06"] = true
+}
+
+// e1Bubble lists the properties whose E1 executions run inside a synctest bubble.
+var e1Bubble = map[string]bool{}
+
+// inBubble runs f inside a synctest bubble.
+func inBubble(t *testing.T, f func()) {
+	synctest.Test(t, func(t *testing.T) { f() })
+}
+
+// probe issues a request and reports whether the handler blocks.
+func (r *e1run) probe(path string) (*respRec, bool) {
+	done := false
+	var rr *respRec
+	go func() {
+		rr = r.safeGet(path)
+		done = true
+	}()
+	synctest.Wait()
+	if !done {
+		return nil, true
+	}
+	return rr, false
+}
+
+func c06Probe(r *e1run) {
+	k := len(r.steps) - 1
+	st := r.steps[k]
+	if !st.avail {
+		return
+	}
+	li := 0
+	for i, s := range r.mi.m.streams {
+		if s.isLeading {
+			li = i
+		}
+	}
+	// probe the leading stream and, if any, one rendition
+	streams := []int{li}
+	if len(r.mi.m.streams) > 1 {
+		streams = append(streams, (li+1)%len(r.mi.m.streams))
+	}
+	for _, si := range streams {
+		pl := st.streams[si].mp
+		if pl == nil {
+			continue
+		}
+		path := mediaPlaylistPath(r.mi.m.streams[si].id)
+		first := pl.MediaSequence
+		open := first + len(pl.Segments)
+		published := len(pl.Parts)
+		msns := []int{first - 1, first, first + 1, open - 2, open - 1, open, open + 1, open + 2, open + 5}
+		seenM := map[int]bool{}
+		for _, M := range msns {
+			if M < 0 || seenM[M] {
+				continue
+			}
+			seenM[M] = true
+			parts := []int{-1, 0, published - 1, published, published + 1, 99}
+			if idx := M - first; idx >= 0 && idx < len(pl.Segments) && len(pl.Segments[idx].Parts) > 0 {
+				parts = append(parts, len(pl.Segments[idx].Parts)-1, len(pl.Segments[idx].Parts))
+			}
+			seenP := map[int]bool{}
+			for _, P := range parts {
+				if P < -1 || seenP[P] {
+					continue
+				}
+				seenP[P] = true
+				q := fmt.Sprintf("_HLS_msn=%d", M)
+				if P >= 0 {
+					q += fmt.Sprintf("&_HLS_part=%d", P)
+				}
+				r.probeOne(path, q, pl, M, P, first, open, st.write)
+				r.nProbes++
+			}
+		}
+		// malformed directives: immediate 400
+		for _, q := range []string{"_HLS_msn=x", "_HLS_part=1", "_HLS_msn=-1", "_HLS_msn=99999999999999999999999", fmt.Sprintf("_HLS_msn=%d&_HLS_part=x", open), fmt.Sprintf("_HLS_msn=%d&_HLS_part=-1", open)} {
+			rr, blocked := r.probe(path + "?" + q)
+			r.nProbes++
+			if blocked || rr.Status != 400 {
+				status := 0
+				if rr != nil {
+					status = rr.Status
+				}
+				r.add("C06", "malformed-not-rejected", "request %s?%s (unparsable / part without msn) was not answered with an immediate 400 (blocked=%v status=%d) after write %d", path, q, blocked, status, st.write)
+			}
+		}
+		// delta updates against the full playlist of the same instant
+		for _, skip := range []string{"YES", "v2"} {
+			for _, extra := range []string{"", "&token=a%20b&x=1", "&a=%zz"} {
+				rr, blocked := r.probe(path + "?_HLS_skip=" + skip + extra)
+				r.nProbes++
+				if blocked || rr.Status != 200 {
+					r.add("C06", "delta-not-served", "delta update request _HLS_skip=%s was not answered with 200 (blocked=%v) after write %d", skip, blocked, st.write)
+					continue
+				}
+				full, _ := r.probe(path + "?" + strings.TrimPrefix(extra, "&"))
+				if full == nil || full.Status != 200 {
+					continue
+				}
+				r.compareDelta(string(full.Body.Bytes()), string(rr.Body.Bytes()), skip+extra, st.write)
+			}
+		}
+	}
+}
+
+func (r *e1run) probeOne(path, q string, pl *m3u.Media, M, P, first, open, write int) {
+	contained := plContains(pl, M, P)
+	unsat := M > open+1 || M <= first
+	rr, blocked := r.probe(path + "?" + q)
+	desc := func() string { return canon(describePL(pl)) }
+	switch {
+	case blocked:
+		if contained {
+			r.add("C06", "blocks-although-published", "request %s?%s blocks although the current playlist already contains its target (write %d); current playlist:\n%s\nops %s", path, q, write, desc(), r.opsString())
+		} else if M > open+1 {
+			r.add("C06", "blocks-instead-of-400", "request %s?%s blocks although msn is more than two past the last complete segment (write %d)", path, q, write)
+		}
+		// otherwise blocking is the correct answer: the request is released when the muxer is closed
+	case rr.Status == 200:
+		mp, _, errs := m3u.Parse(rr.Body.Bytes(), m3u.Options{StrictUnknown: true})
+		if mp == nil || len(errs) > 0 {
+			r.add("C15", "muxer-playlist-grammar", "response to %s?%s: %v", path, q, errs)
+			return
+		}
+		if !plContains(mp, M, P) {
+			r.add("C06", "answered-without-target", "request %s?%s was answered with a playlist that does not contain its target (write %d):\n%s\nops %s", path, q, write, canon(describePL(mp)), r.opsString())
+		}
+		for _, u := range urisOf(mp) {
+			if strings.Contains(u, "_HLS_") {
+				r.add("C06", "hls-directive-in-uri", "listed URI carries an _HLS_ directive: %s", canon(u))
+			}
+		}
+	case rr.Status == 400:
+		if !unsat {
+			r.add("C06", "rejected-satisfiable", "request %s?%s was rejected with 400 although first listed (%d) < msn <= open+1 (%d) (write %d); current playlist:\n%s", path, q, first, open+1, write, desc())
+		}
+	default:
+		r.add("C06", "unexpected-status", "request %s?%s ended with status %d (write %d)", path, q, rr.Status, write)
+	}
+}
+
+// compareDelta: the delta update is the full playlist with its first SKIPPED-SEGMENTS segments and the EXT-X-MAP
+// replaced by one EXT-X-SKIP tag.
+func (r *e1run) compareDelta(full, delta, what string, write int) {
+	dm, _, derrs := m3u.Parse([]byte(delta), m3u.Options{StrictUnknown: true})
+	fm, _, _ := m3u.Parse([]byte(full), m3u.Options{StrictUnknown: true})
+	if dm == nil || fm == nil {
+		return
+	}
+	if len(derrs) > 0 {
+		r.add("C15", "muxer-playlist-grammar", "delta update (%s): %v\n%s", what, derrs, canon(delta))
+	}
+	if dm.Skip == nil {
+		r.add("C06", "delta-without-skip", "response to _HLS_skip=%s carries no EXT-X-SKIP tag (write %d)", what, write)
+		return
+	}
+	k := *dm.Skip
+	if k < 0 || k > len(fm.Segments) {
+		r.add("C06", "delta-skip-count", "SKIPPED-SEGMENTS=%d but the full playlist lists %d segments", k, len(fm.Segments))
+		return
+	}
+	// expected text: full playlist minus EXT-X-MAP minus the lines of the first k segments, plus the SKIP tag
+	var want []string
+	seg := 0
+	var pending []string
+	for _, l := range strings.Split(strings.TrimRight(full, "\n"), "\n") {
+		switch {
+		case strings.HasPrefix(l, "#EXT-X-MAP:"):
+			continue
+		case strings.HasPrefix(l, "#EXTINF:") || strings.HasPrefix(l, "#EXT-X-GAP") || strings.HasPrefix(l, "#EXT-X-PROGRAM-DATE-TIME:") ||
+			(strings.HasPrefix(l, "#EXT-X-PART:") && seg < len(fm.Segments)):
+			pending = append(pending, l)
+		case l != "" && !strings.HasPrefix(l, "#"):
+			pending = append(pending, l)
+			if seg >= k {
+				want = append(want, pending...)
+			}
+			pending = nil
+			seg++
+		default:
+			want = append(want, pending...)
+			pending = nil
+			want = append(want, l)
+		}
+	}
+	want = append(want, pending...)
+	var got []string
+	for _, l := range strings.Split(strings.TrimRight(delta, "\n"), "\n") {
+		if strings.HasPrefix(l, "#EXT-X-SKIP:") {
+			continue
+		}
+		got = append(got, l)
+	}
+	if strings.Join(got, "\n") != strings.Join(want, "\n") {
+		r.add("C06", "delta-differs-from-full", "the delta update (_HLS_skip=%s, SKIPPED-SEGMENTS=%d) is not the full playlist of the same instant with the skipped segments and the EXT-X-MAP removed (write %d)\n--- delta\n%s\n--- full\n%s", what, k, write, canon(delta), canon(full))
+	}
+	// _HLS_ directives are never copied into the listed URIs (whatever else the query string holds)
+	if strings.Contains(what, "&") {
+		for _, u := range urisOf(dm) {
+			if strings.Contains(u, "_HLS_") {
+				r.add("C06", "hls-directive-in-uri", "listed URI carries an _HLS_ directive: %s", canon(u))
+			}
+		}
+	}
+}
